@@ -12,7 +12,7 @@ notes={
  'm12_stop_no_join':'equivalent since the KF-3 fix: stop() has already waited for the pool to go idle before the final shutdown',
 }
 rows={}
-for f in ['/verif/mutants/matrix.txt','/verif/mutants/matrix2.txt']:
+for f in ['/verif/mutants/matrix.txt','/verif/mutants/matrix2.txt','/verif/mutants/matrix_reverts.txt']:
     if not os.path.exists(f): continue
     for l in open(f):
         l=l.strip()
